@@ -318,7 +318,10 @@ func (s *Server) Modify(ms spb.GRIBI_ModifyServer) error {
 		for {
 			in, err := ms.Recv()
 			if err == io.EOF {
-				errCh <- nil
+				// The end of the stream is signalled through the result channel (as a
+				// nil response) rather than directly on errCh, so that every response
+				// queued before it has been written to the client before the RPC returns.
+				resultChan <- nil
 				return
 			}
 			if err != nil {
@@ -382,6 +385,11 @@ func (s *Server) Modify(ms spb.GRIBI_ModifyServer) error {
 		for {
 			select {
 			case res := <-resultChan:
+				if res == nil {
+					// end of stream, all earlier responses have been sent.
+					errCh <- nil
+					return
+				}
 				if err := ms.Send(res); err != nil {
 					errCh <- status.Errorf(codes.Internal, "cannot write message to client channel, %s", res)
 					return
